@@ -278,6 +278,12 @@ func genObjStm(R *rand.Rand) modelCase {
 		}
 		for i := 0; i < 2; i++ {
 			txt, tok := val()
+			if R.IntN(6) == 0 {
+				// stream-shaped: `<< /Length l 0 R >> stream`
+				l := pickAny()
+				txt = fmt.Sprintf("<< /Length %d 0 R >>\nstream\nabc\nendstream", l)
+				tok = "m" + strconv.Itoa(l)
+			}
 			s.members = append(s.members, osMember{base + i, txt})
 			xr = append(xr, fmt.Sprintf("%d S%d", base+i, sn))
 			mem = append(mem, fmt.Sprintf("%d %s", base+i, tok))
@@ -377,4 +383,123 @@ func mObjStmIndirect(R *rand.Rand, d, _ []byte) ([]byte, string) {
 		return splice(d, s.objStart+i, 0, []byte(key+val+" ")), "objstm-indirect:" + key
 	}
 	return mKeyValue(R, d, nil)
+}
+
+// J: the index of an object stream: /N and /First lies, damaged offset tables,
+// member lookup by number, compared with ObjStmIndex.objstm_find.
+func genIndex(R *rand.Rand) modelCase {
+	names := []string{"/Aaa", "/Bb", "/C", "/Dddd"}
+	k := 1 + R.IntN(4)
+	if R.IntN(10) == 0 {
+		k = 0
+	}
+	// the members
+	var body strings.Builder
+	rel := make([]int, 0, 4)
+	for i := 0; i < 4; i++ {
+		rel = append(rel, body.Len())
+		body.WriteString(names[i])
+		body.WriteByte(' ')
+	}
+	bodyLen := body.Len()
+	type hint struct{ val, end int64 }
+	var hdr strings.Builder
+	var ints []hint
+	put := func(v int64) {
+		fmt.Fprintf(&hdr, "%d", v)
+		ints = append(ints, hint{v, int64(hdr.Len())})
+		hdr.WriteString([]string{" ", "  ", "\n"}[R.IntN(3)])
+	}
+	nums := []int64{10, 11, 12, 13}
+	for i := 0; i < k; i++ {
+		no := nums[i%4]
+		switch R.IntN(36) {
+		case 0:
+			no = -1
+		case 1:
+			no = 4294967296
+		case 2:
+			no = 4294967295
+		case 3:
+			no = nums[R.IntN(4)] // duplicates
+		}
+		off := int64(rel[i%4])
+		switch R.IntN(24) {
+		case 0:
+			off = -1
+		case 1:
+			off = 9223372036854775807
+		case 2:
+			off = int64(bodyLen) + int64(R.IntN(3)) - 1
+		case 3:
+			off = int64(R.IntN(bodyLen))
+		}
+		put(no)
+		put(off)
+	}
+	first := int64(hdr.Len())
+	text := hdr.String() + body.String()
+	total := len(text)
+	pick := func(opts []int64) int64 { return opts[R.IntN(len(opts))] }
+	nTok, nTxt := "", ""
+	switch R.IntN(20) {
+	case 0:
+		nTok, nTxt = "o", "/X"
+	default:
+		n := int64(k)
+		if R.IntN(5) == 0 {
+			n = pick([]int64{int64(k) - 1, int64(k) + 1, 0, 10000, 10001, -1, 1})
+		}
+		nTok, nTxt = "i"+strconv.FormatInt(n, 10), strconv.FormatInt(n, 10)
+	}
+	fTok, fTxt := "", ""
+	switch R.IntN(20) {
+	case 0:
+		fTok, fTxt = "o", "(x)"
+	default:
+		f := first
+		if R.IntN(5) == 0 {
+			f = pick([]int64{first - 1, first + 1, 0, int64(total), int64(total) + 5, 9223372036854775807, -3, first - 2})
+		}
+		fTok, fTxt = "i"+strconv.FormatInt(f, 10), strconv.FormatInt(f, 10)
+	}
+	wanted := pick([]int64{10, 11, 12, 13, 77})
+	if k > 0 && R.IntN(5) > 0 {
+		wanted = nums[R.IntN(k)]
+	}
+	var oks []string
+	for i := 0; i < total; i++ {
+		c := text[i]
+		if c == '/' || c == '+' || c == '-' || c == '.' || (c >= '0' && c <= '9') {
+			oks = append(oks, strconv.Itoa(i))
+		}
+	}
+	var sb strings.Builder
+	fmt.Fprintf(&sb, "J %s %s %d %d %d", nTok, fTok, wanted, total, len(ints))
+	for _, h := range ints {
+		fmt.Fprintf(&sb, " %d %d", h.val, h.end)
+	}
+	fmt.Fprintf(&sb, " %d %s", len(oks), strings.Join(oks, " "))
+	f := &osFile{streams: []osStream{{num: 3, extra: fmt.Sprintf("/N %s /First %s", nTxt, fTxt),
+		members: []osMember{{int(wanted), ""}}, bodyOnly: text}}}
+	file := f.build()
+	run := func() (string, []violation) {
+		r, err := pdf.NewReader(bytes.NewReader(file), int64(len(file)), &pdf.ReaderOptions{ErrorHandling: pdf.ErrorHandlingStop})
+		if err != nil {
+			return "open-failed", nil
+		}
+		defer r.Close()
+		obj, err := r.Get(pdf.NewReference(uint32(wanted), 0), true)
+		switch {
+		case err == nil && obj == nil:
+			return "null", nil
+		case err == nil:
+			return "ok", nil
+		case pdf.IsMalformed(err):
+			return "mal", nil
+		default:
+			return "other", nil
+		}
+	}
+	return modelCase{Line: sb.String(), Run: run, NonTrivial: true, Class: "J"}
 }
